@@ -32,6 +32,21 @@ def unique_outputs(program: list[dict]) -> bool:
     return True
 
 
+def gen_mutex_race(rng: random.Random) -> dict:
+    """Two exclusive producers of ONE name behind a default-open gate whose condition comes from an upstream node: until the gate has run,
+    both branches run in the same step; the later-LISTED write must win under every completion order and concurrency limit."""
+    nodes = [
+        {"name": "up", "kind": "fn", "params": [["x", None]], "dataOuts": ["flag"], "body": {"b": "sum", "k": 0}},
+        {"name": "gate", "kind": "ifelse", "params": [["flag", None]], "targets": ["pa", "pb"], "body": {"b": "lt", "k": rng.randint(0, 3)}, "defaultOpen": True},
+        {"name": "pa", "kind": "fn", "params": [["x", None]], "dataOuts": ["answer"], "body": {"b": "tag", "t": "pa"}},
+        {"name": "pb", "kind": "fn", "params": [["x", None]], "dataOuts": ["answer"], "body": {"b": "tag", "t": "pb"}},
+    ]
+    if rng.random() < 0.5:
+        nodes.append({"name": "use", "kind": "fn", "params": [["answer", None]], "dataOuts": ["fin"], "body": {"b": "tag", "t": "use"}})
+    rng.shuffle(nodes)
+    return {"program": [{"name": "g0", "nodes": nodes, "bound": []}], "values": [["x", rng.randint(0, 3)]], "cfg": {}}
+
+
 class C02(RunProp):
     id = "C02"
     level = "proof"
@@ -47,6 +62,7 @@ class C02(RunProp):
     def cases(self, rng: random.Random, tier: str) -> Iterable[dict]:
         gens = [lambda: gen.gen_dag_program(rng, max_nodes=8, depth=rng.choice([0, 1, 2])), lambda: gen.gen_gated_cfg(rng),
                 lambda: gen.gen_loop_bounded(rng), lambda: gen.gen_failing_dag(rng), lambda: gen.gen_map_node(rng)]
+        gens = gens * 2 + [lambda: gen_mutex_race(rng)]
         while True:
             c = rng.choice(gens)()
             if continue_map_with_failing_items(c["program"]):
